@@ -154,6 +154,15 @@ func Run(c *vh.Ctx) {
 	r.runCase(witnessFlat(), true)
 	r.runCase(witnessNested(), true)
 
+	// a tree on which programs keep killing the interpreter is reported after a bounded number of losses
+	tooManyCrashes := func() bool {
+		if r.crashes >= 40 {
+			c.Note("stopped early: %d programs ended the interpreter process (fatal error / hang)", r.crashes)
+			return true
+		}
+		return false
+	}
+
 	// ---- 1. enumerated triples
 	nTriples := 0
 	for si := range shapes {
@@ -167,6 +176,9 @@ func Run(c *vh.Ctx) {
 					nTriples++
 					r.runCase(cs, true)
 				}
+			}
+			if tooManyCrashes() {
+				return
 			}
 		}
 	}
@@ -193,6 +205,9 @@ func Run(c *vh.Ctx) {
 	// ---- 2. seeded programs, writes at depth 1 only (the discipline of the _partial theorem)
 	g := &gen{r: c.Rand, nv: 4}
 	for i := 0; i < c.N(2500, 120000); i++ {
+		if i%200 == 0 && tooManyCrashes() {
+			return
+		}
 		cs := &Case{NV: 4, Ops: g.program(c.Rand.Range(4, 14))}
 		oc := r.runCase(cs, true)
 		if len(oc.Leaks) > 0 && !c.Known[r.signature(cs, oc.Leaks[0])] {
@@ -211,6 +226,9 @@ func Run(c *vh.Ctx) {
 	//         correspondence is checked (the model predicts the leak exactly)
 	g.nested = true
 	for i := 0; i < c.N(2500, 120000); i++ {
+		if i%200 == 0 && tooManyCrashes() {
+			return
+		}
 		cs := &Case{NV: 4, Ops: g.program(c.Rand.Range(4, 12))}
 		agree, inFrag := r.modelAgreesWithSpec(cs)
 		if !inFrag {
